@@ -106,6 +106,12 @@ CLAIMED = {
              'Tie: real Aligner.align rows, real writer byte-wise, getUnalignedFragments vs model, captured candidates of real runs, four-mode end-to-end text oracle with independent CMAP/XMAP parsers (incl. one data set with arbitrary one-decimal coordinates).',
         note=NOTE + 'That listed pairs consist of getPositionsWithSiteIds labels is a hypothesis of the record theorems (justified by C12_within; evaluated by a boolean checker on every model row).', design='6 (C02)',
         technique='Coq proof + differential correspondence (rows, writer, fragments, captured candidates) + end-to-end text oracle'),
+    'C09': dict(
+        text='PARTIAL. coq/props/C09.v proves the logic that makes the output schedule independent: the only cross-task state is the per-process iteration counter, which reaches only the `source` field of pairs; every stage (pairing ... resolver, row, fragments, filters, join, '
+             'multi-pass assembly) commutes with erasing `source`, Aligner.align is independent of the counter up to source incl. the Ok/Err outcome, and for ANY assignment of counters to tasks (any worker count, any completion order, results assembled by task index) the rows and the printed XMAP data lines are identical; '
+             'the sequential model run is one such schedule. NOT expressible in a Gallina model: real process scheduling, pickling, OS behaviour, p_imap returning results in input order (trusted) — exercised by real runs with -c 1,2,3,5,8,16, repetitions, jittered completion orders and recorded execute() order, files compared byte-wise minus the "# coma" line.',
+        note=NOTE + 'p_tqdm.p_imap input-order contract and process isolation are trusted; seeding numerics assumed deterministic (checked by repetition).', design='6 (C09), 10.4',
+        technique='Coq proof (source-erasure noninterference over all schedules) + pipeline correspondence with different counters + end-to-end multi-worker byte comparison'),
 }
 PENDING_REASON = 'check not built yet in this round (planned: DESIGN.md section 6); will be claimed once its model, theorems and correspondence run'
 
